@@ -37,6 +37,11 @@ def scratch_copy(repo):
     lib = os.path.join(dst, 'src', 'lib.rs')
     with open(lib, 'a') as fh:
         fh.write('\n#[cfg(kani)]\n#[path = "%s/mod.rs"]\nmod verif_kani;\n' % HARNESS_DIR)
+    # second injection point: `collections::str` is private to `collections`, its harnesses must live inside it
+    smod = os.path.join(dst, 'src', 'collections', 'str', 'mod.rs')
+    if os.path.exists(smod):
+        with open(smod, 'a') as fh:
+            fh.write('\n#[cfg(kani)]\n#[path = "%s/str_inner.rs"]\nmod verif_kani_str;\n' % HARNESS_DIR)
     os.makedirs(os.path.join(dst, '.cargo'), exist_ok=True)
     with open(os.path.join(dst, '.cargo', 'config.toml'), 'w') as fh:
         fh.write('[net]\noffline = true\n')
@@ -45,6 +50,8 @@ def scratch_copy(repo):
 
 def fq(name):
     hs = all_harnesses()
+    if hs[name]['file'] == 'str_inner.rs':
+        return 'collections::str::verif_kani_str::%s' % name
     return 'verif_kani::%s::%s' % (hs[name]['file'][:-3], name)
 
 
@@ -160,6 +167,9 @@ def run_harnesses(names, repo, outdir, prop=None, tier='quick', jobs=None, timeo
                 continue
             if h['unwinding_failed'] and all('unwinding assertion' in f for f in h['failed_checks']):
                 raise Undecided('unwinding bound too small in harness %s' % n)
+            unsupported = [f for f in h['failed_checks'] if re.search(r'does not support|not supported|unsupported|Unsupported', f)]
+            if unsupported and len(unsupported) == len(h['failed_checks']):
+                raise Undecided('harness %s reaches a construct Kani does not support: %s' % (n, unsupported[0][:200]))
             if h['status'] == 'NO-VERDICT':
                 raise Undecided('kani gave no verdict for %s (timeout / memory limit / crash): %s' % (n, h['raw_tail'][-400:]))
             f = {'obligation': 'kani.%s' % n, 'props': [prop] if prop else [], 'harness': n, 'kind': 'kani harness FAILED',
@@ -194,7 +204,12 @@ def counterexample(name, repo, outdir, scratch=None):
         if not os.path.exists(hcopy):
             shutil.copytree(HARNESS_DIR, hcopy)
             lib = os.path.join(dst, 'src', 'lib.rs')
-            open(lib, 'w').write(open(lib).read().replace(HARNESS_DIR, hcopy))
+            txt = open(lib).read().replace(HARNESS_DIR, hcopy)
+            open(lib, 'w').write(txt)
+            smod = os.path.join(dst, 'src', 'collections', 'str', 'mod.rs')
+            if os.path.exists(smod):
+                txt = open(smod).read().replace(HARNESS_DIR, hcopy)
+                open(smod, 'w').write(txt)
         cmd = kani_cmd([name], 1, ['-Z', 'concrete-playback', '--concrete-playback=print'])
         p = subprocess.run(cmd, cwd=dst, env=env, capture_output=True, text=True, timeout=1800, preexec_fn=_limit)
         out = p.stdout + p.stderr
@@ -208,17 +223,26 @@ def counterexample(name, repo, outdir, scratch=None):
         vecs = re.findall(r'vec!\[([^\]]*)\]', test_src)
         rec['concrete_inputs'] = [v.strip() for v in vecs][:40]
         rec['playback_test'] = test_src[:4000]
-        # append the generated test to the harness file and play it back natively
+        # put the generated unit test into its own module of the scratch harness copy (std's Vec / vec! there do not clash
+        # with the crate's own Vec) and play it back natively: the REAL code runs with CBMC's concrete values
         hs = all_harnesses()
-        hfile = os.path.join(hcopy, hs[name]['file'])
-        with open(hfile, 'a') as fh:
-            fh.write('\n' + test_src + '\n')
+        stem = hs[name]['file'][:-3]
+        for fn_ in os.listdir(hcopy):
+            if fn_.endswith('.rs') and fn_ != 'mod.rs':
+                t = open(os.path.join(hcopy, fn_)).read()
+                t = re.sub(r'(?m)^fn (k_\w+)', r'pub fn \1', t)
+                open(os.path.join(hcopy, fn_), 'w').write(t)
+        with open(os.path.join(hcopy, 'playback.rs'), 'w') as fh:
+            fh.write('extern crate std;\nuse std::vec::Vec;\nuse std::vec;\nuse super::%s::%s;\n%s\n' % (stem, name, test_src))
+        mtxt = open(os.path.join(hcopy, 'mod.rs')).read()
+        if 'pub mod playback;' not in mtxt:
+            open(os.path.join(hcopy, 'mod.rs'), 'w').write(mtxt + '\npub mod playback;\n')
         tname = re.search(r'fn (kani_concrete_playback_\w+)', test_src).group(1)
         pcmd = ['cargo', 'kani', 'playback', '-Z', 'concrete-playback', '--features', FEATURES, '--', tname]
         pp = subprocess.run(pcmd, cwd=dst, env=env, capture_output=True, text=True, timeout=1800)
         pout = pp.stdout + pp.stderr
         rec['native_playback'] = {'cmd': ' '.join(pcmd), 'exit': pp.returncode,
-                                  'output': '\n'.join(l for l in pout.split('\n') if re.search(r'panicked|assert|test result|FAILED|C\d\d', l))[-2500:]}
+                                  'output': '\n'.join(l for l in pout.split('\n') if re.search(r'panicked|assert|test result|FAILED|C\d\d|^error', l))[-2500:]}
         rec['failing_input_found'] = ('test result: FAILED' in pout) or ('panicked at' in pout)
         return rec
     finally:
